@@ -57,6 +57,29 @@ class Scope(BaseScope):
         return self.top.source.filename
 
 
+def loop_memo(obj):
+    # type: (t.Any) -> dict[str, t.Any]
+    """Where names computed for obj are cached: on obj itself or, while a loop
+    is being resolved, in the memo of that resolution (see LoopFlow)"""
+    if LoopFlow.resolving:
+        return LoopFlow.resolving[-1].setdefault(obj, {})  # type: ignore[no-any-return]
+    return obj.__dict__  # type: ignore[no-any-return]
+
+
+class loop_cached_property(cached_property):
+    def __get__(self, obj, cls):  # type: ignore[no-untyped-def]
+        if obj is None:
+            return self
+        memo = loop_memo(obj)
+        name = self.func.__name__
+        try:
+            return memo[name]
+        except KeyError:
+            pass
+        value = memo[name] = self.func(obj)
+        return value
+
+
 class Flow(object):
     def __init__(self, hint, scope, parents=None):
         # type: (str, Scope, t.MutableSequence[Flow | LoopFlow] | None) -> None
@@ -78,12 +101,12 @@ class Flow(object):
             self.scope.locals.add(name.name)
             insert_loc(self._names, name)
 
-    @cached_property
+    @loop_cached_property
     def names(self):
         # type: () -> t.Mapping[str, Name | MultiName]
         return MergedDict({n.name: n for n in self._names}, self.parent_names)
 
-    @cached_property
+    @loop_cached_property
     def parent_names(self):
         # type: () -> t.Mapping[str, Name | MultiName ]
         if len(self.parents) == 1:
@@ -128,6 +151,13 @@ class Flow(object):
 
 
 class LoopFlow(object):
+    # Memos of the loop resolutions in progress, innermost last. While a loop is
+    # being resolved its back edge is cut (names is UNRESOLVED), so every name
+    # table computed meanwhile is valid for that resolution only: it is kept in
+    # the resolution's memo and dropped with it instead of being cached on the
+    # flows, where later queries would pick up the incomplete table.
+    resolving = []  # type: list[dict[t.Any, dict[str, t.Any]]]
+
     if False:
         _names = None  # type: t.Mapping[str, Name | MultiName]
 
@@ -147,12 +177,21 @@ class LoopFlow(object):
         except AttributeError:
             pass
 
-        self._resolving = True
+        memo = loop_memo(self)
         try:
-            result = self._names = self.parent.names
+            return memo['_names']  # type: ignore[no-any-return]
+        except KeyError:
+            pass
+
+        self._resolving = True
+        LoopFlow.resolving.append({})
+        try:
+            result = self.parent.names
         finally:
+            LoopFlow.resolving.pop()
             self._resolving = False
 
+        memo['_names'] = result
         return result
 
 
